@@ -713,6 +713,113 @@ def boost_member_order(rng, case):
     return case
 
 
+def _tiny(third=("tpaaa", "2.0.0")):
+    n, v = third
+    pkgs = [{"name": "wsaaa", "version": "1.0.0", "source": "path", "workspace": True,
+             "deps": [{"name": n, "version": v, "source": "registry", "kinds": ["normal"]}]},
+            {"name": n, "version": v, "source": "registry", "workspace": False, "deps": []}]
+    store = {"criteria": {}, "policy": {}, "imports": {}, "exemptions": {}, "audits": {}, "wildcard_audits": {}, "trusted": {},
+             "lock": {"audits": {}, "publisher": {}, "unpublished": {}}}
+    return pkgs, store
+
+
+def gen_expect_cases(rng, which):
+    """small unlocked resolve cases whose verdict follows from the property text alone (`expect`: the crate that must fail /
+    must be in conflict), each about one import rule"""
+    peer, url = PEERS[0]
+    out = []
+    if which == "builtin-mapped-to-nothing":
+        # criteria-map overrides the peer's built-ins with NOTHING: its safe-to-deploy audits certify nothing here (C01 / C07)
+        for k in range(4):
+            pkgs, store = _tiny()
+            cm = [{"safe-to-deploy": [], "safe-to-run": []}, {"safe-to-deploy": []}, {"safe-to-deploy": ["safe-to-run"]},
+                  {"safe-to-deploy": [], "safe-to-run": []}][k]
+            store["imports"][peer] = {"url": [url], "criteria-map": cm}
+            store["lock"]["audits"][peer] = {"criteria": {}, "audits": {}, "wildcard_audits": {}}
+            entry = {"kind": "full", "version": "2.0.0", "criteria": ["safe-to-deploy"], "notes": "the peer's"}
+            pf = {"criteria": {}, "audits": {"tpaaa": [entry]}, "wildcard_audits": {}, "trusted": {}}
+            if k == 3:
+                pf["audits"] = {}
+                pf["wildcard_audits"] = {"tpaaa": [{"user-id": 1, "start": "2022-01-01", "end": "2023-01-01", "criteria": ["safe-to-deploy"], "notes": "w"}]}
+            reg = {"users": [[1, "user1", "User 1"]], "packages": {"tpaaa": [{"version": "2.0.0", "by": 1, "when": "2022-06-15"}]}, "meta": {}}
+            out.append(finalize({"id": f"xm{k}", "kind": "resolve", "graph": {"packages": pkgs}, "store_struct": store,
+                                 "peers_struct": {url: pf}, "registry": reg, "mode": "unlocked", "allow_criteria_changes": True,
+                                 "expect": {"fails": "tpaaa", "why": f"the import maps the peer's safe-to-deploy to {cm['safe-to-deploy']}, "
+                                            "so the peer's safe-to-deploy records do not certify it for safe-to-deploy"}}))
+    if which == "peer-violation-mixed":
+        # a peer's violation naming a criterion we know next to one we cannot interpret still dominates (C04)
+        for k in range(4):
+            pkgs, store = _tiny()
+            store["imports"][peer] = {"url": [url]}
+            store["lock"]["audits"][peer] = {"criteria": {}, "audits": {}, "wildcard_audits": {}}
+            store["audits"]["tpaaa"] = [{"kind": "full", "version": "2.0.0", "criteria": ["safe-to-deploy"], "notes": "ours"}]
+            ptable = {}
+            crit = [["safe-to-run", "peer-future"], ["peer-future", "safe-to-deploy"], ["safe-to-run", "no-such-criterion"], ["safe-to-run"]][k]
+            if "peer-future" in crit:
+                # the peer defines it with a field from a newer cargo-vet: the definition is skipped, the name becomes unknown
+                ptable["peer-future"] = {"description": "from the future", "implies": [], "extra": {"future-field": True}}
+            viol = {"kind": "violation", "violation": ["*", "=2.0.0", ">=1.0.0", "*"][k], "criteria": crit, "notes": "bad"}
+            pf = {"criteria": ptable, "audits": {"tpaaa": [viol]}, "wildcard_audits": {}, "trusted": {}}
+            reg = {"users": [[1, "user1", "User 1"]], "packages": {"tpaaa": [{"version": "2.0.0", "by": 1, "when": "2022-06-15"}]}, "meta": {}}
+            out.append(finalize({"id": f"xv{k}", "kind": "resolve", "graph": {"packages": pkgs}, "store_struct": store,
+                                 "peers_struct": {url: pf}, "registry": reg, "mode": "unlocked", "allow_criteria_changes": True,
+                                 "expect": {"conflict": "tpaaa", "why": f"the peer serves a violation {viol['violation']} for {crit} and our audit of 2.0.0 "
+                                            "claims safe-to-deploy (which implies safe-to-run)"}}))
+    if which == "wildcard-window-gap":
+        # one import, two URLs, the same publisher's wildcard audit in each with DISJOINT windows; the version in use was published
+        # in the gap: no entry covers it (C06)
+        for k in range(3):
+            pkgs, store = _tiny()
+            url2 = "https://peer-one-b.example/audits.toml"
+            store["imports"][peer] = {"url": [url, url2]}
+            store["lock"]["audits"][peer] = {"criteria": {}, "audits": {}, "wildcard_audits": {}}
+            w1 = {"user-id": 1, "start": "2022-01-01", "end": "2022-01-02", "criteria": ["safe-to-deploy"], "notes": "early"}
+            w2 = {"user-id": 1, "start": "2022-12-31", "end": "2023-01-01", "criteria": ["safe-to-deploy"], "notes": "late"}
+            if k == 1:
+                w1, w2 = w2, w1
+            pfa = {"criteria": {}, "audits": {}, "wildcard_audits": {"tpaaa": [w1]}, "trusted": {}}
+            pfb = {"criteria": {}, "audits": {}, "wildcard_audits": {"tpaaa": [w2] if k < 2 else [dict(w2), dict(w1, notes="again")]}, "trusted": {}}
+            reg = {"users": [[1, "user1", "User 1"]], "packages": {"tpaaa": [{"version": "2.0.0", "by": 1, "when": "2022-06-15"}]}, "meta": {}}
+            out.append(finalize({"id": f"xw{k}", "kind": "resolve", "graph": {"packages": pkgs}, "store_struct": store,
+                                 "peers_struct": {url: pfa, url2: pfb}, "registry": reg, "mode": "unlocked", "allow_criteria_changes": True,
+                                 "expect": {"fails": "tpaaa", "why": "user 1 published 2.0.0 on 2022-06-15, between the two windows the peer's wildcard audits cover"}}))
+    return out
+
+
+def boost_two_trusted_exempted(rng, case):
+    """boost_two_trusted + an exemption for the very version and criteria: the recorded grants suffice, the crate is fully
+    audited and `prune` drops the exemption"""
+    boost_two_trusted(rng, case)
+    store = case["store_struct"]
+    for name, l in store["trusted"].items():
+        if len(l) >= 2 and name in store["lock"]["publisher"] and name not in store["exemptions"]:
+            v = store["lock"]["publisher"][name][0]["version"]
+            store["exemptions"][name] = [{"version": v, "criteria": ["safe-to-deploy"], "suggest": True, "notes": "not needed"}]
+    return case
+
+
+def scenario_old_store_version(cid, k=0):
+    """deterministic history: config.toml says it was written by an OLDER cargo-vet (k=0: version 0.9; k=1: no [cargo-vet] table at
+    all); a peer serves the one audit that is missing.  The unlocked check succeeds and rewrites the files — with which
+    `--locked` must succeed too."""
+    peer, url = PEERS[0]
+    pkgs, store = _tiny()
+    store["imports"][peer] = {"url": [url]}
+    store["lock"]["audits"][peer] = {"criteria": {}, "audits": {}, "wildcard_audits": {}}
+    peers = {url: {"criteria": {}, "audits": {"tpaaa": [{"kind": "full", "version": "2.0.0", "criteria": ["safe-to-deploy"], "notes": "theirs"}]},
+                   "wildcard_audits": {}, "trusted": {}}}
+    registry = {"users": [[1, "user1", "User 1"]], "packages": {"tpaaa": [{"version": "2.0.0", "by": 1, "when": "2022-06-15"}]}, "meta": {}}
+    remote = render_remote(peers, registry)
+    texts = render_store(store)
+    if k % 2 == 0:
+        texts["config"] = texts["config"].replace('version = "1.0"', 'version = "0.9"', 1)
+    else:
+        texts["config"] = texts["config"].replace('[cargo-vet]\nversion = "1.0"\n', "", 1)
+    cmds = [["check"], ["check", "--locked"], ["prune"], ["check", "--locked"]]
+    return {"id": cid, "kind": "history", "graph": {"packages": pkgs}, "store_struct": store, "store": texts,
+            "steps": [{"args": a, "remote": remote} for a in cmds]}
+
+
 def boost_exemptions(rng, case):
     store = case["store_struct"]
     notes = Notes()
@@ -1786,6 +1893,26 @@ def scenario_certify_guess(cid, k=0):
                                                                             {"version": "2.0.0", "by": 1, "when": "2022-06-15"}]}, "meta": {}}
     remote = render_remote({}, registry)
     cmds = [["certify", "tpaaa", "1.0.0", "2.0.0", "--accept-all", "--who", "tester", "--force"], ["check"], ["check", "--locked"]]
+    if k in (4, 5):
+        # a git-revision dependency audited as crates.io: a revision is its own version, whatever its semver part says
+        cur, stale = "2.0.0@git:" + GITREV, "2.0.0@git:" + GITREV2
+        pkgs = [{"name": "wsaaa", "version": "1.0.0", "source": "path", "workspace": True,
+                 "deps": [{"name": "tpaaa", "version": "2.0.0", "source": "git:" + GITREV, "kinds": ["normal"]}]},
+                {"name": "tpaaa", "version": "2.0.0", "source": "git:" + GITREV, "workspace": False, "deps": []}]
+        store["policy"] = {"tpaaa": {"audit-as-crates-io": True}}
+        store["exemptions"] = {}
+        registry = {"users": [[1, "user1", "User 1"]], "packages": {"tpaaa": [{"version": "2.0.0", "by": 1, "when": "2022-06-15"}]},
+                    "meta": {"tpaaa": {"description": "whatever"}}}
+        remote = render_remote({}, registry)
+        if k == 4:
+            # the release is audited, the revision in use is not; the user certifies the delta to ANOTHER revision: nothing connects
+            store["audits"] = {"tpaaa": [{"kind": "full", "version": "2.0.0", "criteria": ["safe-to-deploy"], "notes": "the release"}]}
+            cmds[0] = ["certify", "tpaaa", "2.0.0", stale, "--accept-all", "--who", "tester", "--force"]
+        else:
+            # a delta from the release to the revision in use exists for safe-to-run; the user certifies the RELEASE in full: only
+            # safe-to-run connects
+            store["audits"] = {"tpaaa": [{"kind": "delta", "from": "2.0.0", "to": cur, "criteria": ["safe-to-run"], "importable": False, "notes": "light"}]}
+            cmds[0] = ["certify", "tpaaa", "2.0.0", "--accept-all", "--who", "tester", "--force"]
     steps = [{"args": a, "remote": remote} for a in cmds]
     steps[0]["remote"] = dict(remote, enter=True)         # the user presses ENTER at the criteria prompt
     return {"id": cid, "kind": "history", "graph": {"packages": pkgs}, "store_struct": store,
@@ -2308,6 +2435,11 @@ def gen_aggregate_case(rng, cid):
                 for w in f["trusted"][n]:
                     if nsrc > 1 and rng.random() < 0.3:
                         w["aggregated-from"] = [f"https://src{rng.choice([j for j in range(nsrc) if j != k])}.example/audits.toml"]
+        if rng.random() < 0.3:
+            # a delta audit leading DOWN (a downgrade was reviewed): as good an entry as any other
+            n_ = rng.choice(names)
+            hi_, lo_ = sorted(rng.sample([x for x in VERSIONS if "-" not in x], 2), key=VERSIONS.index, reverse=True)
+            f["audits"].setdefault(n_, []).append({"kind": "delta", "from": hi_, "to": lo_, "criteria": crit_list(rng, pcrits), "notes": notes()})
         if rng.random() < 0.3:
             # two trust grants for one crate, one publisher and one criteria list that differ ONLY in their window (a renewal
             # kept next to the old grant; the other one may sit in another source): both are entries of their own
